@@ -49,9 +49,11 @@ def form_a(draw):
             ne = draw(st.integers(0, E))
             pos = draw(st.integers(0, len(labs)))
             term = "".join(labs[:pos]) + "..." + "".join(labs[pos:])
+            # (a leading dimension may be 1 on this operand: broadcast)
+            mine = [1 if draw(st.integers(0, 3)) == 0 else d for d in esizes[E - ne :]]
             shape = (
                 [sizes[ix] for ix in labs[:pos]]
-                + esizes[E - ne :]
+                + mine
                 + [sizes[ix] for ix in labs[pos:]]
             )
         else:
